@@ -7,8 +7,8 @@ package sched
 
 import (
 	"fmt"
-	"os"
 	"hash/fnv"
+	"os"
 	"runtime"
 	"sort"
 	"sync/atomic"
@@ -64,9 +64,9 @@ func (e *EnvFunc) Run()          { e.R() }
 type Outcome int
 
 const (
-	Done      Outcome = iota // main returned
-	Hang                     // nothing can ever move again (no timer within the horizon)
-	Budget                   // decision budget exhausted
+	Done   Outcome = iota // main returned
+	Hang                  // nothing can ever move again (no timer within the horizon)
+	Budget                // decision budget exhausted
 )
 
 func (o Outcome) String() string { return [...]string{"done", "hang", "budget"}[o] }
@@ -434,8 +434,11 @@ func (s *Sim) Now() time.Duration { return time.Since(s.start) }
 // Run drives the bubble until main returns, the system hangs or the budget is
 // exhausted. It must be called on the bubble's root goroutine.
 func (s *Sim) Run(main func()) Outcome {
-	raceDisable()
-	defer raceEnable()
+	// The scheduler goroutine itself keeps normal race semantics: its
+	// hand-offs with the other goroutines are hidden on their side (Yield),
+	// which is enough to keep the scheduler from ordering them, while
+	// environment actions (cancel a context, close a channel) synchronise
+	// with the workload like any foreign goroutine would.
 	s.start = time.Now()
 	horizon := time.NewTimer(s.Horizon)
 	defer horizon.Stop()
@@ -526,8 +529,6 @@ func (s *Sim) Run(main func()) Outcome {
 // runs and no simulated time passes: it takes the system to a quiescent point
 // after main has returned.
 func (s *Sim) Quiesce(budget int) {
-	raceDisable()
-	defer raceEnable()
 	for i := 0; i < budget; i++ {
 		synctest.Wait()
 		s.drain()
@@ -555,8 +556,6 @@ func (s *Sim) Quiesce(budget int) {
 // Release switches to free-running mode: every parked goroutine continues and
 // later yields return immediately. Used for end-of-run cleanup.
 func (s *Sim) Release() {
-	raceDisable()
-	defer raceEnable()
 	s.free.Store(true)
 	for {
 		synctest.Wait()
